@@ -60,3 +60,18 @@ reg("C11", "tables", fn="check_identities")
 reg("C11", "tables", fn="check_wiring")
 reg("C02", "opsib")
 reg("C10", "opsib")
+
+# rules added from the study of seeded changes (rules/extra.py)
+reg("C05", "extra", fn="check_emptyiter")
+reg("C02", "extra", fn="check_emptyiter")
+reg("C02", "extra", fn="check_iterbudget")
+reg("C01", "extra", fn="check_iterbudget")
+reg("C02", "extra", fn="check_l1reset")
+reg("C03", "extra", fn="check_copyfid")
+reg("C07", "extra", fn="check_narrowcast")
+reg("C13", "extra", fn="check_asciifold")
+reg("C10", "extra", fn="check_asciifold")
+
+# C17 replace; C18 escape
+reg("C17", "apirules", fn="check_splice")
+reg("C18", "apirules", fn="check_escape")
